@@ -24,6 +24,7 @@ RULE = ('tree-shaped molecules with 1-3 stereo double bonds (geometry chosen by 
         'the chain in which every coarse node has a name of its own. distinct = (feature set, '
         '#double bonds, #fragments, permutation class); non-trivial = at least one cut.')
 ASSUMPTIONS = ['a slash mark and both atoms next to it stay in one fragment (conservative reading of the quantifier)',
+               'molecules with a stereo double bond inside a ring (half of the cases) are rendered so that the later-written double-bond atom precedes its own substituent; the other spellings (F/C=2CCCCCC\\C=2) are read by pysmiles itself differently from OpenSMILES, also for an uncut molecule, and have no reference',
                'marked atoms of different double bonds are neither shared nor adjacent, marked substituents carry no double bond',
                'expected geometry = OpenSMILES up/down rule applied to the written order within each fragment text (permutation '
                'invariant, as the documentation states)']
@@ -70,18 +71,45 @@ def finish_text(tokens, idx, slashes, chiral, g):
     return ''.join('(' if t[0] == 'open' else ')' if t[0] == 'close' else t[1] for t in out)
 
 
+def later_anchor_after_its_substituent(r, stereo):
+    """True if, in this rendering, some stereo double bond has both atoms in the text and the one written LATER comes
+    after its own marked substituent (possible only around a ring, e.g. F/C=2CCCCCC\\C=2).  pysmiles itself reads such
+    spellings differently from OpenSMILES, so they are outside the domain of the comparison."""
+    idx = {n: i for i, n in enumerate(r['atoms'])}
+    for s in stereo:
+        if s['a1'] in idx and s['a2'] in idx:
+            (a, l) = (s['a2'], s['l2']) if idx[s['a2']] > idx[s['a1']] else (s['a1'], s['l1'])
+            if l in idx and idx[l] < idx[a]:
+                return True
+    return False
+
+
+def marked_pair_is_ring_closure(r, slash_pairs):
+    """True if the rendering writes a slash-marked bond as a ring closure (the slash could then not be written in
+    front of the later atom)"""
+    by_number = {}
+    for t in r['tokens']:
+        if t[0] == 'ring':
+            num = ''.join(ch for ch in t[1] if ch.isdigit())
+            by_number.setdefault(num, []).append(t[2])
+    return any(len(v) == 2 and frozenset(v) in slash_pairs for v in by_number.values()) or any(len(v) > 2 for v in by_number.values())
+
+
 def make_case(rng):
     res = None
     for _ in range(50):
-        res = S.gen_stereo_molecule(rng)
+        res = S.gen_stereo_molecule(rng, p_ring=0.5)
         if res is not None:
             break
     if res is None:
         return None
     g, stereo, chiral = res
+    cyclic = g.number_of_edges() >= len(g)
+    bridges = {frozenset(e) for e in nx.bridges(g)} if cyclic else None
     slash_pairs = {frozenset((s[l], s[a])) for s in stereo for l, a in (('l1', 'a1'), ('l2', 'a2'))}
     db = {frozenset((s['a1'], s['a2'])) for s in stereo}
-    allowed = [frozenset(e) for e in g.edges if frozenset(e) not in slash_pairs and (g.edges[e]['order'] == 1 or frozenset(e) in db)]
+    allowed = [frozenset(e) for e in g.edges if frozenset(e) not in slash_pairs and (g.edges[e]['order'] == 1 or frozenset(e) in db)
+               and (bridges is None or frozenset(e) in bridges)]
     rng.shuffle(allowed)
     mode = rng.choice(['db_only', 'single_only', 'both'])
     cut_edges = []
@@ -119,7 +147,12 @@ def make_case(rng):
     renders = {}
     order_index = {}
     for i, comp in enumerate(comps):
-        r = M.render_fragment(rng, g, sorted(comp), desc, opts={'explicit_single': 0.0, 'leading': rng.random() < 0.3, 'bracket_p': bracket_p})
+        for _try in range(30):
+            r = M.render_fragment(rng, g, sorted(comp), desc, opts={'explicit_single': 0.0, 'leading': rng.random() < 0.3, 'bracket_p': bracket_p})
+            if not cyclic or not (marked_pair_is_ring_closure(r, slash_pairs) or later_anchor_after_its_substituent(r, stereo)):
+                break
+        else:
+            return None
         renders[i] = r
         for k, n in enumerate(r['atoms']):
             order_index[n] = k
@@ -129,7 +162,12 @@ def make_case(rng):
         frags['F%d' % i] = finish_text(r['tokens'], idx, slashes, chiral, g)
         frag_atoms['F%d' % i] = r['atoms']
     # uncut reference
-    r0 = M.render_fragment(rng, g, sorted(g.nodes), {}, opts={'explicit_single': 0.0, 'bracket_p': bracket_p})
+    for _try in range(30):
+        r0 = M.render_fragment(rng, g, sorted(g.nodes), {}, opts={'explicit_single': 0.0, 'bracket_p': bracket_p})
+        if not cyclic or not (marked_pair_is_ring_closure(r0, slash_pairs) or later_anchor_after_its_substituent(r0, stereo)):
+            break
+    else:
+        return None
     oi0 = {n: k for k, n in enumerate(r0['atoms'])}
     sl0 = S.slash_tokens(stereo, oi0, rng)
     single = finish_text(r0['tokens'], oi0, sl0, chiral, g)
@@ -158,6 +196,8 @@ def make_case(rng):
         if any(any(frozenset((c, nb)) in cut_edges for nb in g[c]) for c in chiral):
             feats.add('cut_next_to_stereocentre')
     feats.add('double_bonds_%d' % len(stereo))
+    if cyclic:
+        feats.add('stereo_double_bond_in_ring')
     if bracket_p:
         feats.add('bracket_atoms')
     items = list(frags.items())
